@@ -151,8 +151,9 @@ def run(key):
         data = (data[0], np.asarray(data[1]).astype(np.float32)) if integ else data.astype(np.float32)
         init = init.astype(np.float32)
     opts = dict(weight_constant_axis=wca)
+    tkw = dict(max_concentration=500.0) if gk == 'kmax500' else None
     try:
-        m = M.fit(model, data, init, its, **opts)
+        m = M.fit(model, data, init, its, trainer_kw=tkw, **opts)
         post = np.asarray(M.predict(model, m, data))
     except Exception as e:  # noqa
         if pert == 0 and model in ('gmm', 'gcacgmm', 'cbmm'):
@@ -168,7 +169,7 @@ def run(key):
     if not integ and its <= 2:
         # the posterior handed out by fit_predict (second public route to the same quantity)
         try:
-            fp = np.asarray(M.trainer(model).fit_predict(data, initialization=init, iterations=its, **opts))
+            fp = np.asarray(M.trainer(model, **(tkw or {})).fit_predict(data, initialization=init, iterations=its, **opts))
         except Exception as e:  # noqa
             return viol(f'{model}: fit_predict raised on separable data: {e!r}')
         if fp.shape != lead + (K, N) or not np.isfinite(fp).all():
@@ -253,6 +254,8 @@ def subchecks(tier, seed):
                                 gks = ('one', 'all1e-6', 'all1e6') if model == 'gmm' else ('one', 'phasor', 'mag', 'extreme')
                                 if model in ('vmfmm', 'vmfcacgmm'):
                                     gks = gks + ('f32',)      # single-precision observations and start
+                                if model == 'cbmm':
+                                    gks = gks + ('kmax500',)  # trainer with a finite max_concentration
                                 for gk in gks:
                                     if model == 'vmfmm' and gk == 'phasor':
                                         continue
